@@ -501,6 +501,64 @@ def _validate_job(args):
     return (args[0],) + validate_lexer(*args)
 
 
+# ------------------------------------------------------------------ numeric defaults that have no literal (YAML: .inf, -.inf, .nan)
+FLOAT_DEFAULTS = [1.5, -0.0, 1e300, float("inf"), float("-inf"), float("nan")]
+
+
+def k_float_default(P, idx):
+    return _model(P, S(P, name="Holder", type="object", properties={"v": S(P, type="number", default=FLOAT_DEFAULTS[idx])}, required=[]))
+
+
+class FloatDefault(Obligation):
+    """A number default is rendered as an expression that evaluates to that number (str(float('inf')) is a bare name)."""
+
+    functions = ["pyopenapi_gen.visit.model.dataclass_generator:DataclassGenerator._get_field_default"]
+
+    def __init__(self):
+        self.name = "float_default"
+        self.bounds = {"default": [repr(x) for x in FLOAT_DEFAULTS]}
+
+    def make_inputs(self, e):
+        return {"idx": e.choose(len(FLOAT_DEFAULTS), "idx")}
+
+    def run_sym(self, inp):
+        return call_catching(k_float_default, _I(), inp["idx"])
+
+    def run_real(self, inp):
+        return call_catching(k_float_default, _R(), inp["idx"])
+
+    def normalise(self, r):
+        return [str(x.simp() if is_sym(x) else x) for x in r] if isinstance(r, list) else r
+
+    def verdict(self, inp, r):
+        import math
+        import re
+
+        if isinstance(r, Raised):
+            return True, ""
+        text = str(r[0].simp() if is_sym(r[0]) else r[0])
+        m = re.search(r"^\s+v: [^=\n]*= (.*?)\s*(#.*)?$", text, re.M)
+        if not m:
+            return False, "no field `v` with a default in %r" % text[-300:]
+        try:
+            got = eval(m.group(1), {"__builtins__": {}, "float": float})  # the field's default expression as the module evaluates it
+        except Exception as ex:  # noqa: BLE001 - the generated expression is the subject
+            return False, "default expression %r does not evaluate: %r" % (m.group(1), ex)
+        want = FLOAT_DEFAULTS[inp["idx"]]
+        ok = (math.isnan(got) and math.isnan(want)) if isinstance(got, float) and math.isnan(want) else got == want
+        return ok, "default %r rendered as %r" % (want, m.group(1))
+
+    def prop(self, inp, r):
+        return self.verdict(inp, r)[0]
+
+    def describe_violation(self, inp, r):
+        return "number property with default %r: %s" % (FLOAT_DEFAULTS[inp["idx"]], self.verdict(inp, r)[1])
+
+
+def mk_float_default():
+    return FloatDefault()
+
+
 def specs(tier):
     nmax = 2 if tier == "quick" else 3
     deep = {"model.enum_value", "model.property_name", "endpoint.summary", "model.field_description_required", "client.description"}
@@ -513,6 +571,7 @@ def specs(tier):
         for n in ([3] if tier == "quick" else [4, 5, 6]):
             if n > top:
                 out.append((MOD, "mk", (site, n, QUOTES)))
+    out.append((MOD, "mk_float_default", ()))
     return out
 
 
@@ -528,7 +587,7 @@ def run(tier, rep, only=None):
     # 1. validate the reference lexer against CPython on concrete renderings of every site
     import multiprocessing as mp
 
-    sites = sorted({s[2][0] for s in sp})
+    sites = sorted({s[2][0] for s in sp if s[1] == "mk"})
     vlen = 2 if tier == "quick" else 3
     with mp.get_context("fork").Pool(min(16, len(sites) or 1)) as pool:
         for site, cases, bad in pool.imap_unordered(_validate_job, [(s, vlen) for s in sites]):
@@ -545,6 +604,11 @@ def run(tier, rep, only=None):
 
 def replay(path):
     v = json.load(open(path))["violation"]
+    if v["obligation"] == "float_default":
+        ob = FloatDefault()
+        ok, why = ob.verdict(v["inputs"], ob.run_real(v["inputs"]))
+        print("replay float_default inputs=%r -> holds=%s %s" % (v["inputs"], ok, why))
+        return 0 if ok else 1
     _, site, ln = v["obligation"].split("/")[:3]
     n = int(ln.split("=")[1])
     t = v["inputs"]["text"]
